@@ -22,13 +22,11 @@ BY_CONSTRUCTION = {
 CAUGHT_BY_OTHER = {
     # the change is to `filter -line-nums` with several ranges (range_merge): the subject of C13 (C05 states it as outside
     # its claim and refers to C13), whose check catches it
-    'C10-r7m1': ('C05', 'the change is the any / all slip in the is-identity attribute of a `|` sequence (the same diff as C05-r4m1, written '
-                        'again by an author who saw only C10\'s earlier changes): C05 K9 checks that attribute; C10 observes it only through '
-                        'programs whose accumulated transformations include `identity`, which its catalogue does not have'),
     'C05-r6m1': ('C13', 'the change is to the merging of several ranges of `filter -line-nums`, which C05 states as outside its claim '
                         '(line selection is C13)'),
 }
 ALSO = {
+    'C10-r7m1': ['C05 K9 (the same diff as C05-r4m1; caught by the check of C05 at once)'],
     'C02-r5m1': ['C17 K3:sub, K3:beside:*, K3:named (the check of C17 caught it before C02 got K7: the change is to the order '
                  'in which suite and case contents are merged)'],
     'C04-r4m2': ['C02 K3:chain:setup-main, K3:chain:post (the check of C02 caught it before C04 was strengthened)'],
